@@ -54,4 +54,56 @@ theorem clean_head_slash (p : Path) : (clean p).head? = some slash ↔ p.head? =
             exact joinSlash_head_ne_slash comps c0 rest hc (hfacts c0 (by rw [hc]; simp)) hh
       · intro hh; exact absurd hh hr
 
+/-- joined non-empty slash-free components do not end in a separator -/
+theorem joinSlash_getLast_ne_slash (cs : List Path) (hne : cs ≠ []) (h : ∀ c ∈ cs, c ≠ [] ∧ NoSlash c) :
+    (joinSlash cs).getLast? ≠ some slash := by
+  induction cs with
+  | nil => exact absurd rfl hne
+  | cons c rest ih =>
+    cases rest with
+    | nil =>
+      simp only [joinSlash]
+      obtain ⟨hc, hns⟩ := h c (by simp)
+      intro hl
+      apply hns
+      exact List.mem_of_getLast? hl
+    | cons d ds =>
+      simp only [joinSlash]
+      have ih' := ih (by simp) (fun x hx => h x (List.mem_cons_of_mem _ hx))
+      have hjn : joinSlash (d :: ds) ≠ [] := joinSlash_ne_nil _ d ds rfl (h d (by simp)).1
+      intro hl
+      apply ih'
+      cases hj : joinSlash (d :: ds) with
+      | nil => exact absurd hj hjn
+      | cons a as =>
+        rw [hj] at hl
+        simpa [List.getLast?_append, List.getLast?_cons_cons] using hl
+
+/-- **a cleaned path ends in a separator only when it is the root** -/
+theorem clean_no_trailing_slash (p : Path) : clean p = [slash] ∨ (clean p).getLast? ≠ some slash := by
+  by_cases hp : p = []
+  · subst hp; right; decide
+  · obtain ⟨comps, hfacts, h⟩ := clean_shape p hp
+    rw [h]
+    cases hc : comps with
+    | nil =>
+      cases hr : (p.head? == some slash) with
+      | true => left; simp [joinSlash]
+      | false => right; simp [joinSlash]; decide
+    | cons c0 rest =>
+      right
+      have hl := joinSlash_getLast_ne_slash comps (by rw [hc]; simp) hfacts
+      have hn : joinSlash comps ≠ [] := joinSlash_ne_nil comps c0 rest hc (hfacts c0 (by rw [hc]; simp)).1
+      rw [← hc]
+      cases hr : (p.head? == some slash) with
+      | true =>
+        simp only [if_true]
+        cases hj : joinSlash comps with
+        | nil => exact absurd hj hn
+        | cons a as => rw [hj] at hl; simpa [List.getLast?_cons_cons] using hl
+      | false =>
+        have : (joinSlash comps == []) = false := by simpa using hn
+        simp only [Bool.false_eq_true, if_false, this]
+        exact hl
+
 end Fsn
